@@ -25,32 +25,48 @@
 (*   - IN reaches only command 1, OUT only command n                        *)
 (*   - after a failure at k: commands k+1.. were never started and the      *)
 (*     parent holds no end of any link                                      *)
+(*   - what was configured on a pipeline survives appending a command to it *)
+(* KeepOnAppend = TRUE is the code (`pipeline | command` pushes onto the   *)
+(* existing pipeline); FALSE models rebuilding it from its commands.        *)
 (* MoveNotClone = TRUE is the code (the read end is MOVED into the next     *)
 (* command); FALSE models handing over a duplicate and keeping the original.*)
 (***************************************************************************)
 EXTENDS Naturals, Sequences, FiniteSets, TLC
 
-CONSTANTS MaxN, MoveNotClone
+CONSTANTS MaxN, MoveNotClone, KeepOnAppend
 
 \* ---------------------------------------------------------------- composition
-\* a tree is a leaf <<i>> or a pair <<left, right>>; Exec | Pipeline does not exist in the API
+\* a tree is a leaf <<i>> or a node <<left, right, c>>; Exec | Pipeline does not exist in the API.
+\* c > 0: after this composition the caller configured the resulting pipeline (.stdin(c), .stdout(c)); c = 0: it did not
 IsLeaf(t) == Len(t) = 1
 RECURSIVE Leaves(_)
 Leaves(t) == IF IsLeaf(t) THEN t ELSE Leaves(t[1]) \o Leaves(t[2])
-\* the builder's BitOr implementations, on [cmds, isPipe]
+\* the builder's BitOr implementations, on [cmds, pipe, stdin, stdout] (0 = the default, inherit)
 RECURSIVE Compose(_)
 Compose(t) ==
-  IF IsLeaf(t) THEN [cmds |-> t, pipe |-> FALSE]
+  IF IsLeaf(t) THEN [cmds |-> t, pipe |-> FALSE, stdin |-> 0, stdout |-> 0]
   ELSE LET l == Compose(t[1])
            r == Compose(t[2])
-       IN CASE ~l.pipe /\ ~r.pipe -> [cmds |-> <<l.cmds[1], r.cmds[1]>>, pipe |-> TRUE]   \* Pipeline::new(a, b)
-            [] l.pipe /\ ~r.pipe  -> [cmds |-> Append(l.cmds, r.cmds[1]), pipe |-> TRUE] \* self.cmds.push(rhs)
-            [] l.pipe /\ r.pipe   -> [cmds |-> l.cmds \o r.cmds, pipe |-> TRUE]          \* self.cmds.extend(rhs.cmds)
-            [] OTHER              -> [cmds |-> <<>>, pipe |-> FALSE]                      \* not expressible
+           p == CASE ~l.pipe /\ ~r.pipe -> [cmds |-> <<l.cmds[1], r.cmds[1]>>, pipe |-> TRUE, stdin |-> 0, stdout |-> 0]  \* Pipeline::new(a, b)
+                  [] l.pipe /\ ~r.pipe  -> IF KeepOnAppend
+                                           THEN [l EXCEPT !.cmds = Append(l.cmds, r.cmds[1])]                          \* self.cmds.push(rhs); self
+                                           ELSE [cmds |-> Append(l.cmds, r.cmds[1]), pipe |-> TRUE, stdin |-> 0, stdout |-> 0] \* (rebuilt from the commands)
+                  [] l.pipe /\ r.pipe   -> [l EXCEPT !.cmds = l.cmds \o r.cmds, !.stdout = r.stdout]                     \* extend; takes rhs.stdout
+                  [] OTHER              -> [cmds |-> <<>>, pipe |-> FALSE, stdin |-> 0, stdout |-> 0]                    \* not expressible
+       IN IF t[3] > 0 THEN [p EXCEPT !.stdin = t[3], !.stdout = t[3]] ELSE p
+\* what the caller may expect, stated without looking at the implementation: the pipeline's input setting is the
+\* outermost one made on a (sub)pipeline that starts with the first command; its output setting the outermost one made
+\* on a (sub)pipeline that -- at the time -- ended with what is now... the last command, where appending a single command
+\* extends the pipeline on its left (its settings stay) and joining two pipelines keeps the right one's output setting
+RECURSIVE CfgIn(_)
+CfgIn(t) == IF IsLeaf(t) THEN 0 ELSE IF t[3] > 0 THEN t[3] ELSE CfgIn(t[1])
+RECURSIVE CfgOut(_)
+CfgOut(t) == IF IsLeaf(t) THEN 0 ELSE IF t[3] > 0 THEN t[3]
+             ELSE IF IsLeaf(t[2]) THEN CfgOut(t[1]) ELSE CfgOut(t[2])
 RECURSIVE Trees(_, _)
-Trees(lo, hi) ==     \* all API-expressible trees over the leaves lo..hi
+Trees(lo, hi) ==     \* all API-expressible trees over the leaves lo..hi, each composition configured afterwards or not
   IF lo = hi THEN {<<lo>>}
-  ELSE UNION {{<<l, r>> : l \in Trees(lo, k), r \in Trees(k + 1, hi)} :
+  ELSE UNION {{<<l, r, c>> : l \in Trees(lo, k), r \in Trees(k + 1, hi), c \in {0, 10 * lo + hi}} :
               k \in {j \in lo..(hi - 1) : (j = lo) => (hi = lo + 1)}}
 
 \* ---------------------------------------------------------------- wiring
@@ -93,6 +109,7 @@ Spec == Init /\ [][Next]_vars
 
 \* ---------------------------------------------------------------- properties
 Order == Compose(tree).cmds = [i \in 1..n |-> i] /\ Leaves(tree) = [i \in 1..n |-> i]
+Settings == Compose(tree).stdin = CfgIn(tree) /\ Compose(tree).stdout = CfgOut(tree)
 
 Started == Len(wired)
 ParentHolds == {ret[i] : i \in 1..Len(ret)} \ {None}
@@ -110,5 +127,5 @@ Exclusive ==
 AfterFailure ==
   phase = "failed" => /\ Started = failAt - 1
                       /\ ParentHolds = {}
-NoViolation == Order /\ Wiring /\ Exclusive /\ AfterFailure
+NoViolation == Order /\ Settings /\ Wiring /\ Exclusive /\ AfterFailure
 =============================================================================
